@@ -88,6 +88,10 @@ func (p *Parser) Read() (*base.T, error) {
 	verifTick(p)
 	p.LastT = p.CurrentT
 
+	// a token pushed back with Unget is handed out again without lexing:
+	// its line breaks have been counted already
+	isReRead := p.ungetFlg
+
 	p.getToken()
 	var t *base.T
 
@@ -102,7 +106,7 @@ func (p *Parser) Read() (*base.T, error) {
 		stringValue := p.Lexer.Value().(string)
 		t = base.MakeString(stringValue)
 
-		if p.BeforeString != stringValue {
+		if !isReRead {
 			// Count newlines in string and increment p.Row accordingly
 			newlineCount := strings.Count(stringValue, "\n")
 			p.Row += newlineCount
